@@ -192,3 +192,210 @@ Section Step.
     injection E as <-. split; [apply ocanon_oenc|apply okind_oenc].
   Qed.
 End Step.
+
+(** * Constructors: whatever redundancy the input has, the object is the canonical one *)
+Lemma ser_sign_z s : ser_sign s = sign_z s. Proof. destruct s; reflexivity. Qed.
+Lemma ser_sign_ok s : (ser_sign s =? -1) || (ser_sign s =? 0) || (ser_sign s =? 1) = true.
+Proof. destruct s; reflexivity. Qed.
+Lemma words_is_word w : inb (2 ^ 32) w -> forallb is_word w = true.
+Proof. intros H. change (forallb is_word w) with (forallb is_u32 w). apply is_u32_inb. exact H. Qed.
+
+Theorem construct_spec c : ctor_wf c ->
+  construct c = Ret (oenc (fst (sconstruct c)) (snd (sconstruct c))).
+Proof.
+  intros H. destruct c; cbn [ctor_wf] in H; cbn [construct sconstruct fst snd oenc].
+  - unfold biguint_from_vec. rewrite enc_strip by auto. reflexivity.
+  - rewrite unew_spec by auto. reflexivity.
+  - rewrite ufrom_slice_spec by auto. reflexivity.
+  - rewrite ufrom_bytes_le_spec by auto. reflexivity.
+  - rewrite ufrom_bytes_be_spec by auto. reflexivity.
+  - rewrite de_biguint_tokens_spec. unfold spec_de. rewrite words_is_word by auto. reflexivity.
+  - unfold biguint_from_vec. rewrite from_biguint_ienc by (apply canon_strip; auto). rewrite val_strip. reflexivity.
+  - rewrite inew_spec by auto. reflexivity.
+  - rewrite ifrom_slice_spec by auto. reflexivity.
+  - rewrite ifrom_bytes_le_spec by auto. reflexivity.
+  - rewrite ifrom_bytes_be_spec by auto. reflexivity.
+  - rewrite from_signed_bytes_le_spec by auto. reflexivity.
+  - rewrite from_signed_bytes_be_spec by auto. reflexivity.
+  - rewrite de_bigint_spec. unfold spec_ide, spec_de. rewrite ser_sign_ok, words_is_word by auto.
+    cbn [option_map of_opt bind]. rewrite ser_sign_z. reflexivity.
+  - unfold biguint_from_vec. rewrite ifrom_u_spec by (apply canon_strip; auto). rewrite val_strip. reflexivity.
+Qed.
+
+Lemma sconstruct_nonneg c : ctor_wf c -> fst (sconstruct c) = KU -> 0 <= snd (sconstruct c).
+Proof.
+  intros H K. destruct c; cbn [ctor_wf] in H; cbn [sconstruct fst snd] in *; try discriminate.
+  - apply val_nonneg; auto.
+  - apply (le_value_bound (2 ^ 32)); [lia|auto].
+  - apply (le_value_bound (2 ^ 32)); [lia|auto].
+  - apply (le_value_bound 256); [lia|auto].
+  - apply (le_value_bound 256); [lia|apply inb_rev; auto].
+  - apply (le_value_bound (2 ^ 32)); [lia|auto].
+Qed.
+
+(** * BigUint values never leave the naturals (so [enc] loses nothing) *)
+Lemma rawval_nonneg_u y : raw_wf y -> okind y = KU -> 0 <= rawval y.
+Proof. destruct y; cbn; intros H K; try discriminate. apply val_nonneg; auto. Qed.
+
+Lemma sstep_nonneg v o v' : 0 <= v -> op_wf o -> sstep KU v o = Ret v' -> 0 <= v'.
+Proof.
+  intros Hv Hw E.
+  destruct o; cbn [op_wf] in Hw; cbn [sstep] in E;
+    try (unfold operand in E; destruct (kind_eqb KU (okind y)) eqn:K; [|discriminate];
+         assert (Hy : 0 <= rawval y) by (apply rawval_nonneg_u; auto; destruct y; [reflexivity|discriminate]);
+         set (b := rawval y) in *; clearbody b);
+    unfold spec_usub, spec_udiv, spec_urem, spec_udiv_ceil, nz, spec_and, spec_or, spec_xor, ill_s in E;
+    try discriminate.
+  - injection E as <-. lia.
+  - destruct (v <? b) eqn:L; [discriminate|]. injection E as <-. apply Z.ltb_ge in L. lia.
+  - destruct (Z.eqb_spec b 0); [discriminate|]. injection E as <-. apply Z.div_pos; lia.
+  - destruct (Z.eqb_spec b 0); [discriminate|]. injection E as <-. apply Z.mod_pos_bound. lia.
+  - injection E as <-. apply Z.land_nonneg. auto.
+  - injection E as <-. apply Z.lor_nonneg. auto.
+  - injection E as <-. apply Z.lxor_nonneg. tauto.
+  - unfold spec_shl in E. destruct (n <? 0) eqn:L; [discriminate|]. apply Z.ltb_ge in L.
+    destruct (v =? 0); [injection E as <-; lia|].
+    destruct ((0 <? n / 64) && too_big (n / 64 + (zdigits v + 1))); [discriminate|].
+    injection E as <-. apply Z.mul_nonneg_nonneg; [auto|]. apply Z.pow_nonneg. lia.
+  - unfold spec_shr_exec in E. destruct (n <? 0) eqn:L; [discriminate|]. apply Z.ltb_ge in L.
+    injection E as <-. rewrite shr_exec_eq by auto. apply Z.div_pos; [auto|]. apply Z.pow_pos_nonneg; lia.
+  - unfold spec_set_bit_exec in E. injection E as <-. rewrite set_bit_exec_eq by lia.
+    destruct v0.
+    + unfold Z.setbit. apply Z.lor_nonneg. split; [auto|]. apply Z.shiftl_nonneg. lia.
+    + unfold Z.clearbit. apply Z.ldiff_nonneg. auto.
+  - injection E as <-. lia.
+  - injection E as <-. lia.
+  - injection E as <-. auto.
+  - injection E as <-. apply (le_value_bound (2 ^ 32)); [lia|auto].
+  - injection E as <-. destruct t; cbn in Hw; lia.
+  - destruct (v <? s) eqn:L; [discriminate|]. injection E as <-. apply Z.ltb_ge in L. lia.
+  - assert (0 <= s) by (destruct t; cbn in Hw; lia).
+    destruct (Z.eqb_spec s 0); [discriminate|]. injection E as <-. apply Z.div_pos; lia.
+  - assert (0 <= s) by (destruct t; cbn in Hw; lia).
+    destruct (Z.eqb_spec s 0); [discriminate|]. injection E as <-. apply Z.mod_pos_bound. lia.
+  - destruct (Z.eqb_spec b 0); [discriminate|]. injection E as <-. apply Z.div_pos; lia.
+  - destruct (Z.eqb_spec b 0); [discriminate|]. injection E as <-. apply Z.mod_pos_bound. lia.
+  - destruct (Z.eqb_spec b 0); [discriminate|]. injection E as <-. apply Z.div_pos; lia.
+  - destruct (Z.eqb_spec b 0); [discriminate|]. injection E as <-. apply Z.mod_pos_bound. lia.
+  - destruct (Z.eqb_spec b 0); [discriminate|]. injection E as <-.
+    assert (- v / b <= 0) by (apply Z.div_le_upper_bound; lia). lia.
+Qed.
+
+(** * Histories *)
+Lemma fits_oenc k v : (k = KU -> 0 <= v) -> fits (oenc k v) = sfits v.
+Proof.
+  intros H. unfold fits, sfits. f_equal. destruct k; cbn [oenc odigits].
+  - rewrite <- (enc_val v) at 2 by auto. symmetry. apply zdigits_val, enc_canon.
+  - rewrite <- (ienc_val v) at 2. symmetry. apply zdigits_ival, ienc_canon.
+Qed.
+
+Lemma guard_oenc k v : (k = KU -> 0 <= v) -> guard (oenc k v) = omap (oenc k) (sguard v).
+Proof. intros H. unfold guard, sguard. rewrite fits_oenc by auto. destruct (sfits v); reflexivity. Qed.
+
+Lemma ocanon_nonneg s : ocanon s -> okind s = KU -> 0 <= oval s.
+Proof. destruct s; cbn; intros H K; try discriminate. apply val_nonneg, H. Qed.
+
+Section Run.
+  Variable P : hist_params.
+  Hypothesis HP : hist_ok P = true.
+
+  (** one guarded step *)
+  Lemma gstep_spec k v o : (k = KU -> 0 <= v) -> sfits v = true -> op_wf o ->
+    (do s1 <- step P (oenc k v) o; guard s1) = omap (oenc k) (do v1 <- sstep k v o; sguard v1).
+  Proof.
+    intros Hn Hf Hw.
+    rewrite (step_spec P HP) by (auto using ocanon_oenc; rewrite fits_oenc; auto).
+    rewrite okind_oenc, oval_oenc by auto.
+    destruct (sstep k v o) as [v1| |] eqn:E; cbn [omap bind]; try reflexivity.
+    apply guard_oenc. intros ->. eapply sstep_nonneg; eauto.
+  Qed.
+
+  Lemma sguard_ret v v' : sguard v = Ret v' -> v' = v /\ sfits v = true.
+  Proof. unfold sguard. destruct (sfits v); intros E; [injection E as <-; auto|discriminate]. Qed.
+
+  Theorem run_spec ops : forall k v, (k = KU -> 0 <= v) -> sfits v = true -> Forall op_wf ops ->
+    run P (oenc k v) ops = omap (oenc k) (srun k v ops).
+  Proof.
+    induction ops as [|o r IH]; intros k v Hn Hf Hw; cbn [run srun]; [reflexivity|].
+    inversion Hw as [|? ? Ho Hr]; subst.
+    pose proof (gstep_spec k v o Hn Hf Ho) as G.
+    destruct (sstep k v o) as [v1| |] eqn:E1; cbn [bind omap] in G |- *.
+    - destruct (step P (oenc k v) o) as [s1| |] eqn:E2; cbn [bind] in G |- *.
+      + destruct (sguard v1) as [v2| |] eqn:E3; cbn [omap bind] in G |- *; rewrite G; cbn [bind]; try reflexivity.
+        apply sguard_ret in E3 as [-> F]. apply IH; auto.
+        intros ->. eapply sstep_nonneg; eauto.
+      + rewrite G. destruct (sguard v1); reflexivity || discriminate.
+      + rewrite G. destruct (sguard v1); reflexivity || discriminate.
+    - destruct (step P (oenc k v) o); cbn [bind] in G |- *; try exact G.
+      rewrite G. reflexivity.
+    - destruct (step P (oenc k v) o); cbn [bind] in G |- *; try exact G.
+      rewrite G. reflexivity.
+  Qed.
+
+  (** every history of the machine computes the canonical representation of what the same
+      history computes on integers, and panics exactly where that one does *)
+  Theorem history_spec c ops : ctor_wf c -> Forall op_wf ops ->
+    history P c ops = omap (oenc (fst (shistory c ops))) (snd (shistory c ops)).
+  Proof.
+    intros Hc Hw. unfold history, start, shistory. rewrite construct_spec by auto.
+    destruct (sconstruct c) as [k v] eqn:E. cbn [fst snd bind].
+    assert (Hn : k = KU -> 0 <= v).
+    { intros K. pose proof (sconstruct_nonneg c Hc) as N. rewrite E in N. apply N. exact K. }
+    rewrite guard_oenc by auto.
+    destruct (sguard v) as [v0| |] eqn:G; cbn [omap bind]; try reflexivity.
+    apply sguard_ret in G as [-> F]. apply run_spec; auto.
+  Qed.
+
+  (** the same for what the harness prints: every intermediate object *)
+  Lemma trace_spec ops : forall k v, (k = KU -> 0 <= v) -> sfits v = true -> Forall op_wf ops ->
+    trace P (oenc k v) ops = map (omap (oenc k)) (strace k v ops).
+  Proof.
+    induction ops as [|o r IH]; intros k v Hn Hf Hw; cbn [trace strace]; [reflexivity|].
+    inversion Hw as [|? ? Ho Hr]; subst.
+    rewrite (gstep_spec k v o Hn Hf Ho).
+    destruct (sstep k v o) as [v1| |] eqn:E1; cbn [bind omap map]; try reflexivity.
+    destruct (sguard v1) as [v2| |] eqn:E3; cbn [omap map]; try reflexivity.
+    apply sguard_ret in E3 as [-> F]. cbn [omap bind]. f_equal. apply IH; auto.
+    intros ->. eapply sstep_nonneg; eauto.
+  Qed.
+
+  Theorem history_trace_spec c ops : ctor_wf c -> Forall op_wf ops ->
+    history_trace P c ops =
+    map (omap (oenc (fst (shistory_trace c ops)))) (snd (shistory_trace c ops)).
+  Proof.
+    intros Hc Hw. unfold history_trace, start, shistory_trace. rewrite construct_spec by auto.
+    destruct (sconstruct c) as [k v] eqn:E. cbn [fst snd bind].
+    assert (Hn : k = KU -> 0 <= v).
+    { intros K. pose proof (sconstruct_nonneg c Hc) as N. rewrite E in N. apply N. exact K. }
+    rewrite guard_oenc by auto.
+    destruct (sguard v) as [v0| |] eqn:G; cbn [omap map]; try reflexivity.
+    apply sguard_ret in G as [-> F]. cbn [omap bind]. f_equal. apply trace_spec; auto.
+  Qed.
+
+  (** ** the invariant by induction over the history *)
+  Theorem run_canon ops : forall s s', ocanon s -> fits s = true -> Forall op_wf ops ->
+    run P s ops = Ret s' -> ocanon s' /\ fits s' = true /\ okind s' = okind s.
+  Proof.
+    induction ops as [|o r IH]; intros s s' Cs Fs Hw E; cbn [run] in E.
+    - injection E as <-. auto.
+    - inversion Hw as [|? ? Ho Hr]; subst.
+      destruct (step P s o) as [s1| |] eqn:E1; cbn [bind] in E; try discriminate.
+      destruct (step_canon P HP s o s1 Cs Fs Ho E1) as [C1 K1].
+      unfold guard in E. destruct (fits s1) eqn:F1; cbn [bind] in E; try discriminate.
+      destruct (IH s1 s' C1 F1 Hr E) as (C & F & K). rewrite K1 in K. auto.
+  Qed.
+
+  Theorem start_canon c s : ctor_wf c -> start c = Ret s -> ocanon s /\ fits s = true.
+  Proof.
+    intros Hc E. unfold start in E. rewrite construct_spec in E by auto. cbn [bind] in E.
+    unfold guard in E. destruct (fits _) eqn:F; [|discriminate]. injection E as <-.
+    split; [apply ocanon_oenc|exact F].
+  Qed.
+
+  Theorem reachable_canon c ops s0 s : ctor_wf c -> Forall op_wf ops ->
+    start c = Ret s0 -> run P s0 ops = Ret s -> ocanon s.
+  Proof.
+    intros Hc Hw E0 E. destruct (start_canon c s0 Hc E0) as [C0 F0].
+    apply (run_canon ops s0 s C0 F0 Hw E).
+  Qed.
+End Run.
